@@ -71,14 +71,31 @@ func ctxDescOf(v ssa.Value) ctxDesc {
 	return ctxDesc{}
 }
 
-// sprintfOf: v = fmt.Sprintf("%d" or "%v", x) -> x
+// sprintfOf: v = fmt.Sprintf("%d" or "%v", x), strconv.Itoa(x), strconv.FormatInt(int64(x), 10) -> x
 func sprintfOf(v ssa.Value) ssa.Value {
 	call, ok := v.(*ssa.Call)
 	if !ok {
 		return nil
 	}
 	f := call.Call.StaticCallee()
-	if f == nil || f.String() != "fmt.Sprintf" || len(call.Call.Args) != 2 {
+	if f == nil {
+		return nil
+	}
+	// the other spellings of the decimal rendering
+	switch f.String() {
+	case "strconv.Itoa":
+		return call.Call.Args[0]
+	case "strconv.FormatInt", "strconv.FormatUint":
+		if k, ok := ConstInt(call.Call.Args[1]); ok && k == 10 {
+			x := call.Call.Args[0]
+			if cv, ok := x.(*ssa.Convert); ok {
+				x = cv.X
+			}
+			return x
+		}
+		return nil
+	}
+	if f.String() != "fmt.Sprintf" || len(call.Call.Args) != 2 {
 		return nil
 	}
 	format, ok := ConstString(call.Call.Args[0])
@@ -296,8 +313,15 @@ func checkC15(c *Ctx, r *Report) {
 					r.Trivial("R15a", name, "store fields.a", c.Pos(st.Pos()), "nil list")
 					return
 				}
-				if _, isMake := st.Val.(*ssa.MakeSlice); isMake {
-					r.Trivial("R15a", name, "store fields.a", c.Pos(st.Pos()), "empty/nil-filled array, elements stored through setAt")
+				if made, direct := madeList(fn, st.Val); made {
+					if len(direct) == 0 {
+						r.Trivial("R15a", name, "store fields.a", c.Pos(st.Pos()), "empty/nil-filled array, elements stored through setAt")
+						return
+					}
+					// elements written into the new list by index before it is installed: each pairs like a setAt
+					for _, es := range direct {
+						pairSite(c, r, fn, name, "element store", es, st.Addr.(*ssa.FieldAddr).X, es.Addr.(*ssa.IndexAddr).Index, nil, es.Val)
+					}
 					return
 				}
 				ok, why := positionalFill(c, fn, st)
@@ -344,11 +368,116 @@ func checkC15(c *Ctx, r *Report) {
 
 	indexTextRule(c, r)
 
+	orphanContextRule(c, r)
+
 	r.Rule("R15d", "every implementation of value.SetContext stores its argument into storage reachable from the receiver on every path", 2)
 	setContextRule(c, r)
 
 	r.Rule("R15e", "Parent() returns the config wrapped by ctx.parent and nil otherwise; context.path recurses through parent.Context(): one source of truth", 2)
 	parentRule(c, r)
+}
+
+// assertedFrom: the config v is the member c of parent.(cfgSub) — through struct copies, local variables and joins
+// with the zero cfgSub (whose config is nil: nothing can be stored through it).
+func assertedFrom(v, parent ssa.Value, d int) bool {
+	if d > 8 {
+		return false
+	}
+	switch x := v.(type) {
+	case *ssa.Field:
+		return assertedFrom(x.X, parent, d+1)
+	case *ssa.Extract:
+		if ta, ok := x.Tuple.(*ssa.TypeAssert); ok && x.Index == 0 {
+			return ta.X == parent
+		}
+	case *ssa.TypeAssert:
+		return x.X == parent
+	case *ssa.Phi:
+		n := 0
+		for _, e := range x.Edges {
+			if k, isK := e.(*ssa.Const); isK && k.Value == nil {
+				continue // zero value
+			}
+			if !assertedFrom(e, parent, d+1) {
+				return false
+			}
+			n++
+		}
+		return n > 0
+	case *ssa.UnOp:
+		if x.Op != token.MUL {
+			return false
+		}
+		addr := x.X
+		if fa, ok := addr.(*ssa.FieldAddr); ok {
+			addr = fa.X
+		}
+		if a, ok := addr.(*ssa.Alloc); ok {
+			n := 0
+			for _, ref := range *a.Referrers() {
+				if st, ok := ref.(*ssa.Store); ok && st.Addr == ssa.Value(a) {
+					if k, isK := st.Val.(*ssa.Const); isK && k.Value == nil {
+						continue
+					}
+					if !assertedFrom(st.Val, parent, d+1) {
+						return false
+					}
+					n++
+				}
+			}
+			return n > 0
+		}
+	}
+	return false
+}
+
+// madeList: v is a slice made in this function (or nil on some paths); returns the stores that write its elements by index.
+func madeList(fn *ssa.Function, v ssa.Value) (bool, []*ssa.Store) {
+	set := map[ssa.Value]bool{}
+	var mk *ssa.MakeSlice
+	ok := true
+	var walk func(x ssa.Value)
+	walk = func(x ssa.Value) {
+		if set[x] {
+			return
+		}
+		set[x] = true
+		switch y := x.(type) {
+		case *ssa.Phi:
+			for _, e := range y.Edges {
+				walk(e)
+			}
+		case *ssa.MakeSlice:
+			if mk != nil && mk != y {
+				ok = false
+			}
+			mk = y
+		case *ssa.Const:
+			if !y.IsNil() {
+				ok = false
+			}
+		default:
+			ok = false
+		}
+	}
+	walk(v)
+	if !ok || mk == nil {
+		return false, nil
+	}
+	var out []*ssa.Store
+	Instrs(fn, false, func(in ssa.Instruction) {
+		st, isSt := in.(*ssa.Store)
+		if !isSt {
+			return
+		}
+		if ia, isIA := st.Addr.(*ssa.IndexAddr); isIA && set[ia.X] {
+			if c, isC := st.Val.(*ssa.Const); isC && c.IsNil() {
+				return
+			}
+			out = append(out, st)
+		}
+	})
+	return true, out
 }
 
 // literalCtx: v = &cfgNil{cfgPrimitive{ctx, meta}} or similar literal: the context stored in it.
@@ -370,6 +499,9 @@ func literalCtx(v ssa.Value) ctxDesc {
 		if refs == nil {
 			return ctxDesc{}
 		}
+		// field-by-field initialisation (`n.ctx.parent = p; n.ctx.field = f`) builds one address chain per
+		// statement (no CSE): what the chains say is put together
+		merged := ctxDesc{how: "literal"}
 		for _, ref := range *refs {
 			fa, ok := ref.(*ssa.FieldAddr)
 			if !ok {
@@ -400,14 +532,33 @@ func literalCtx(v ssa.Value) ctxDesc {
 					}
 				}
 				if d.ok {
-					return d
+					if d.parent != nil && d.field != nil {
+						return d
+					}
+					if d.parent != nil {
+						merged.parent, merged.ok = d.parent, true
+					}
+					if d.field != nil {
+						merged.field, merged.ok = d.field, true
+					}
 				}
 			}
 			if f == "cfgPrimitive" {
 				if d := walk(fa); d.ok {
-					return d
+					if d.parent != nil && d.field != nil {
+						return d
+					}
+					if d.parent != nil {
+						merged.parent, merged.ok = d.parent, true
+					}
+					if d.field != nil {
+						merged.field, merged.ok = d.field, true
+					}
 				}
 			}
+		}
+		if merged.ok {
+			return merged
 		}
 		return ctxDesc{}
 	}
@@ -415,7 +566,7 @@ func literalCtx(v ssa.Value) ctxDesc {
 }
 
 // contextOfStored: how does the stored value get its context?
-func contextOfStored(fn *ssa.Function, at *ssa.Call, val ssa.Value) (ctxDesc, string) {
+func contextOfStored(fn *ssa.Function, at ssa.Instruction, val ssa.Value) (ctxDesc, string) {
 	// (a) val = X.cpy(C)
 	if call, ok := val.(*ssa.Call); ok && call.Call.IsInvoke() && call.Call.Method.Name() == "cpy" {
 		return ctxDescOf(call.Call.Args[0]), "cpy"
@@ -424,19 +575,37 @@ func contextOfStored(fn *ssa.Function, at *ssa.Call, val ssa.Value) (ctxDesc, st
 	if d := literalCtx(val); d.ok {
 		return d, "literal"
 	}
-	// (b) followed by val.SetContext(C) in the same block
+	// (d) built by a function of the normalize family that is handed the context (normalizeValue(opts, tag, ctx, v))
+	for _, s := range Sources(val) {
+		if e, ok := s.(*ssa.Extract); ok && e.Index == 0 {
+			if call, ok := e.Tuple.(*ssa.Call); ok {
+				if g := call.Call.StaticCallee(); g != nil && strings.HasPrefix(g.Name(), "normalize") {
+					for _, a := range call.Call.Args {
+						if isNamed(a.Type(), modPath, "context") {
+							return ctxDescOf(a), "built with the context handed to " + g.Name()
+						}
+					}
+				}
+			}
+		}
+	}
+	// (b) val.SetContext(C) in the same block, after the store or in front of it (the last one counts)
 	seen := false
+	var before *ssa.Call
 	for _, in := range at.Block().Instrs {
-		if in == ssa.Instruction(at) {
+		if in == at {
 			seen = true
 			continue
 		}
-		if !seen {
-			continue
-		}
 		if call, ok := in.(*ssa.Call); ok && call.Call.IsInvoke() && call.Call.Method.Name() == "SetContext" && call.Call.Value == val {
-			return ctxDescOf(call.Call.Args[0]), "SetContext after the store"
+			if seen {
+				return ctxDescOf(call.Call.Args[0]), "SetContext after the store"
+			}
+			before = call
 		}
+	}
+	if before != nil {
+		return ctxDescOf(before.Call.Args[0]), "SetContext in front of the store"
 	}
 	return ctxDesc{}, ""
 }
@@ -469,6 +638,9 @@ func parentOwns(fn *ssa.Function, parent, recv ssa.Value) (bool, string) {
 					}
 				}
 			}
+		}
+		if owner != nil && assertedFrom(owner, parent, 0) {
+			return true, "parent is the value whose cfgSub wraps the receiving config"
 		}
 		return false, "the parent is not a wrapper of the config that owns the receiving fields"
 	}
@@ -534,7 +706,7 @@ func parentOwns(fn *ssa.Function, parent, recv ssa.Value) (bool, string) {
 	return false, "cannot determine the owner of the receiving fields"
 }
 
-func pairSite(c *Ctx, r *Report, fn *ssa.Function, name, what string, call *ssa.Call, recv, key, parentArg, val ssa.Value) {
+func pairSite(c *Ctx, r *Report, fn *ssa.Function, name, what string, call ssa.Instruction, recv, key, parentArg, val ssa.Value) {
 	pos := c.Pos(call.Pos())
 	d, how := contextOfStored(fn, call, val)
 	if !d.ok {
@@ -837,11 +1009,15 @@ func renumberAfter(fn *ssa.Function, cp *ssa.Call, dst *ssa.Slice) (bool, string
 			continue
 		}
 		// receiver: element loaded from an IndexAddr with index j
-		var j ssa.Value
+		var j, low ssa.Value
 		for _, s := range Sources(sc.Call.Value) {
 			if l, ok := s.(*ssa.UnOp); ok {
 				if ia, ok := l.X.(*ssa.IndexAddr); ok {
 					j = ia.Index
+					// `for off, v := range a[i:]`: the element's position in the list is i+off
+					if sl, ok := ia.X.(*ssa.Slice); ok && sl.Low != nil {
+						low = sl.Low
+					}
 				}
 			}
 		}
@@ -849,6 +1025,24 @@ func renumberAfter(fn *ssa.Function, cp *ssa.Call, dst *ssa.Slice) (bool, string
 			continue
 		}
 		d := ctxDescOf(sc.Call.Args[0])
+		if low != nil {
+			x := sprintfOf(d.field)
+			add, isAdd := x.(*ssa.BinOp)
+			same := func(a, b ssa.Value) bool { return a == b || SameValue(a, b) }
+			if x == nil || !isAdd || add.Op != token.ADD || !(same(add.X, low) && same(add.Y, j) || same(add.Y, low) && same(add.X, j)) {
+				return false, "the re-contexting loop does not give element j the index j"
+			}
+			if d.parent != nil {
+				return false, "the re-contexting loop replaces the parent"
+			}
+			if k, ok := counterStart(j); !ok || k != 0 {
+				return false, "the re-contexting loop does not start at the first element of the re-sliced list"
+			}
+			if !(dst.Low != nil && same(low, dst.Low)) {
+				return false, "the re-contexting loop does not start at the first moved element"
+			}
+			return true, "a loop over the list from the first moved element gives every element its new index (offset + position), keeping its parent"
+		}
 		okk, _ := keyMatches(d.field, j)
 		if !okk {
 			return false, "the re-contexting loop does not give element j the index j"
@@ -880,6 +1074,145 @@ func renumberAfter(fn *ssa.Function, cp *ssa.Call, dst *ssa.Slice) (bool, string
 		return true, "a loop after the move gives every element from the first moved one its new index, keeping its parent"
 	}
 	return false, "no re-contexting of the moved elements follows the copy"
+}
+
+// orphanContextRule (R15h): the context of a node that already sits in a tree is only changed together with the
+// store that puts the node at the place the context names (R15a pairs the two), or to renumber it in its own list
+// (R15b). A node can be reachable from more than one place it was attached to over time (SetChild of a handle
+// taken with Child, a value moved by the caller): its context says where it was attached last, and re-contexting
+// it on behalf of another slot — when that slot is removed, cleared or overwritten — makes Path()/Parent() of a
+// node that is still in the tree describe a place that does not hold it.
+func orphanContextRule(c *Ctx, r *Report) {
+	r.Rule("R15h", "SetContext is called on an existing node only next to the store that attaches it (same value stored through fields.set/setAt or directly) or to renumber it within its list; everywhere else only values made in the function are given a context", 5)
+	setFn := c.Method("", "fields", "set")
+	setAtFn := c.Method("", "fields", "setAt")
+	for _, fn := range c.SrcFuncs() {
+		if fn.Pkg != c.SSA[""] || fn.Name() == "SetContext" {
+			continue
+		}
+		name := c.FnName(fn)
+		for _, ci := range CallsIn(fn, false) {
+			call, ok := ci.(*ssa.Call)
+			if !ok {
+				continue
+			}
+			var recv, arg ssa.Value
+			switch {
+			case call.Call.IsInvoke() && call.Call.Method.Name() == "SetContext" && len(call.Call.Args) == 1:
+				recv, arg = call.Call.Value, call.Call.Args[0]
+			case call.Call.StaticCallee() != nil && call.Call.StaticCallee().Name() == "SetContext" && call.Call.StaticCallee().Pkg == c.SSA[""] && len(call.Call.Args) == 2:
+				recv, arg = call.Call.Args[0], call.Call.Args[1]
+			default:
+				continue
+			}
+			existing := ""
+			rs := Sources(recv)
+			for _, s := range rs {
+				switch x := s.(type) {
+				case *ssa.Parameter:
+					existing = "parameter " + x.Name()
+				case *ssa.Lookup:
+					existing = "map entry"
+				case *ssa.Extract:
+					if _, isL := x.Tuple.(*ssa.Lookup); isL {
+						existing = "map entry"
+					}
+					if cl, isC := x.Tuple.(*ssa.Call); isC && !madeHere(cl) {
+						existing = "result of " + cl.Call.Value.Name()
+					}
+				case *ssa.UnOp:
+					if x.Op == token.MUL {
+						if _, local := x.X.(*ssa.Alloc); !local {
+							existing = "loaded from " + x.X.Name()
+						}
+					}
+				case *ssa.Call:
+					if !madeHere(x) {
+						existing = "result of " + x.Call.Value.Name()
+					}
+				}
+			}
+			pos := c.Pos(call.Pos())
+			if existing == "" {
+				r.OK("R15h", name, "context given", pos, "the value is made in this function")
+				continue
+			}
+			shares := func(v ssa.Value) bool {
+				if v == recv {
+					return true
+				}
+				for _, s1 := range Sources(v) {
+					for _, s2 := range rs {
+						if s1 == s2 {
+							return true
+						}
+					}
+				}
+				return false
+			}
+			stored := false
+			Instrs(fn, false, func(in ssa.Instruction) {
+				switch x := in.(type) {
+				case *ssa.Call:
+					if IsCallTo(x, setFn) && shares(x.Call.Args[2]) || IsCallTo(x, setAtFn) && shares(x.Call.Args[3]) {
+						stored = true
+					}
+				case *ssa.Store:
+					if _, isIA := x.Addr.(*ssa.IndexAddr); isIA && isNamed(x.Val.Type(), modPath, "value") && shares(x.Val) {
+						stored = true
+					}
+				case *ssa.MapUpdate:
+					if isNamed(x.Value.Type(), modPath, "value") && shares(x.Value) {
+						stored = true
+					}
+				}
+			})
+			if stored {
+				r.OK("R15h", name, "context given", pos, "next to the store that attaches the value (paired by R15a)")
+				continue
+			}
+			// renumbering: the element's own context with only the field replaced by the rendering of an index
+			d := ctxDescOf(arg)
+			renumber := false
+			if d.ok && d.parent == nil && d.base != nil && sprintfOf(d.field) != nil {
+				if bc, isC := d.base.(*ssa.Call); isC && bc.Call.IsInvoke() && bc.Call.Method.Name() == "Context" && shares(bc.Call.Value) {
+					renumber = true
+				}
+			}
+			r.Check(renumber, "R15h", name, "context given", pos, "the element keeps its parent and takes the rendering of an index (checked by R15b)",
+				"an existing node ("+existing+") is given another context without being stored at the place that context names: a node that was attached somewhere else in the meantime (SetChild of a handle, a moved value) is still in the tree, and its Path()/Parent() — and FlattenedKeys, diff and every error below it — now describe a place that does not hold it")
+		}
+	}
+}
+
+// madeHere: the call returns a value that did not exist before (a constructor, a copy, a normalised input).
+func madeHere(call *ssa.Call) bool {
+	if call.Call.IsInvoke() {
+		return call.Call.Method.Name() == "cpy"
+	}
+	f := call.Call.StaticCallee()
+	if f == nil {
+		return false
+	}
+	n := f.Name()
+	return strings.HasPrefix(n, "new") || strings.HasPrefix(n, "New") || strings.HasPrefix(n, "normalize") || n == "cpy"
+}
+
+// counterStart: the first value of a loop counter (a φ with one constant start, or φ+k of the rotated range form).
+func counterStart(j ssa.Value) (int64, bool) {
+	if phi, ok := j.(*ssa.Phi); ok {
+		return phiInit(phi)
+	}
+	if b, ok := j.(*ssa.BinOp); ok && b.Op == token.ADD {
+		if phi, ok := b.X.(*ssa.Phi); ok {
+			if k, isK := ConstInt(b.Y); isK {
+				if lo, ok := phiInit(phi); ok {
+					return lo + k, true
+				}
+			}
+		}
+	}
+	return 0, false
 }
 
 // setContextRule: R15d.
